@@ -34,7 +34,7 @@ def m_adsb(ctx, case):
     rng = ctx.rng
     s8, tc, cat, df = case["cs"], case["tc"], case["cat"], case["df"]
     me = (tc << 51) | (cat << 48) | enc(s8)
-    hx = "%028X" % bits.es_frame(df, rng.randrange(8), rng.fill(24), me)
+    hx = bits.anypi(rng, "%028X" % bits.es_frame(df, rng.randrange(8), rng.fill(24), me))
     if case.get("lower"):
         hx = hx.lower()
     exp = s8.replace(" ", "_")
@@ -55,6 +55,9 @@ def m_adsb(ctx, case):
     s2 = s8[:pos] + ch2 + s8[pos + 1:]
     me2 = (tc << 51) | (cat << 48) | enc(s2)
     hx2 = "%028X" % bits.es_frame(df, 5, 0x123456, me2)
+    if rng.random() < 0.5:
+        hx2 = hx2[:-6] + hx[-6:].upper()   # same last 24 bits as the frame decoded just before (parity is not the decoders' business)
+        ctx.hit("consecutive_frames_share_pi")
     r2 = call(adsb.callsign, hx2)
     ctx.ev()
     if r[0] == "ok" and r2[0] == "ok" and isinstance(r2[1], str):
